@@ -29,7 +29,11 @@ ASSUMPTIONS = ['np.searchsorted(a, v, side="right") on a sorted array = number o
                'the code is point-wise in the leading axes of an N-D spectrum (each row is binned separately by the '
                'model and compared)',
                'source tie: the numpy primitives are the definitions of lean/TaurexModel/Gen/Prelude.lean (element-wise ops with 1-D broadcasting, slices, searchsorted = count, stable argsort, masks, np.where, take); the list dialect of the translator (harness/translate_list.py) is part of the trusted base',
-               'source tie: np.histogram is instantiated by C05Src.npHistogram / npHistogramW (Proofs/C05SrcNp.lean)']
+               'source tie: np.histogram is instantiated by C05Src.npHistogram / npHistogramW (Proofs/C05SrcNp.lean)',
+               'source tie: np.digitize(x, edges, right=True) is instantiated by C05Src.npDigitize (the number of edges '
+               'below the point: numpy evaluates it as searchsorted(edges, x, side="left") for increasing edges); the N-D '
+               'path of util.bindown is translated for one row of a 2-D array (leading axis lifted, lifted_ndim=2); '
+               'x.mean() = sum / (sum of ones)']
 
 REL = 1e-10
 
@@ -82,6 +86,19 @@ SRC_SPECS = [
     dict(dialect='list', module=_FB, cls='FluxBinner', func='__init__', lean='fluxbinner_init_array',
          params=dict(wngrid='list', wngrid_width='list'), attrs=_FB_ATTRS, state=['self._wngrid', 'self._wngrid_width'],
          raise_value=_FB_RAISE),
+    # util.bindown on N-D data (the `np.digitize` path): `original_data` is ONE ROW of a 2-D array (the leading axis is
+    # lifted: the code is point-wise in it); np.digitize(…, right=True) is an external
+    dict(dialect='list', module='taurex/util/util.py', func='bindown', lean='util_bindown_nd',
+         params=dict(original_bin='list', original_data='llist', new_bin='list', last_point='none'), lifted_ndim=2,
+         vexternals={'np.digitize(right)': dict(lean='digitize', args=['list', 'list', 'bool'], ret='natlist'),
+                     'np.histogram': dict(lean='histogram', args=['list', 'list'], ret=_HIST),
+                     'np.histogram(weights)': dict(lean='histogram_weights', args=['list', 'list', 'list'], ret=_HIST)}),
+    # FluxBinner.bindown with ONE width for every native bin (`grid_width` a scalar: `hasattr(grid_width, '__len__')` is
+    # False, the width broadcasts)
+    dict(dialect='list', module=_FB, cls='FluxBinner', func='bindown', lean='fluxbinner_bindown_s',
+         params=dict(wngrid='list', spectrum='list', grid_width='s', error='none'), attrs=_FB_ATTRS),
+    dict(dialect='list', module=_FB, cls='FluxBinner', func='bindown', lean='fluxbinner_bindown_se',
+         params=dict(wngrid='list', spectrum='list', grid_width='s', error='list'), attrs=_FB_ATTRS),
 ]
 
 
